@@ -139,7 +139,16 @@ structure Input where
                                      -- "signingAuthority" (every chain certificate must be valid at the signing time); "" = x509
   chainLen : Nat := 0                -- certificates in the signature's chain, leaf first (1 = self-signed signing certificate); 0 = 2
   badCert : Nat := 0                 -- when `timestampOk = false`: index of the certificate that is not valid at that time
-  badHow : String := ""              -- "expired" (before that time) | "notYetValid" (renewed: valid only after it)
+  badHow : String := ""              -- "expired" (before that time) | "notYetValid" (renewed: valid only after it) |
+                                     -- "noCountersignature" (round 7: the chain is valid, but the statement demands a verified
+                                     -- timestamp and the signature carries none)
+  -- round 7: the statement's timestamp configuration (scheme x509) and how close to the end points of a
+  -- validity period the prescribed time lies (scheme signingAuthority: the signing time has a resolution of one second)
+  tsaStore : Bool := false           -- the statement lists a `tsa` trust store as well
+  verifyTimestamp : String := ""     -- signatureVerification.verifyTimestamp: "" (unset = always) | "always" | "afterCertExpiry"
+  badBy : String := ""               -- when `timestampOk = false`: "" = outside by half an hour or more | "second" = by exactly one second
+  edge : String := ""                -- when `timestampOk = true`: "" = well inside every period | "notBefore" / "notAfter" = the
+                                     -- prescribed time IS that end point of certificate `badCert`'s period
   deriving Repr, FromJson, ToJson
 
 structure Result where
@@ -333,17 +342,63 @@ def revocationSource (supply : String) : String :=
   if supply == "validator" || supply == "both" then "validator"
   else if supply == "client" then "client" else "default"
 
-/-- validity of each chain certificate at the time the scheme prescribes, leaf first, as the
-concretisation mints them: all valid, except certificate `badCert` when the validation is to fail -/
-def chainValidity (i : Input) : List Bool :=
-  (List.range (if i.chainLen == 0 then 2 else i.chainLen)).map (fun k => i.timestampOk || k != i.badCert)
-
 /-- the authentic-timestamp validation (both schemes, no countersignature): EVERY certificate of
 the chain - first, middle, last or only - must be valid at the prescribed time -/
 def timestampTruth (valid : List Bool) : Bool := valid.all id
 
+/-! #### round 7: validity periods with their end points, and the statement's timestamp configuration
+
+Times are seconds relative to the time the scheme prescribes (`0` = that time: the time of verification under
+`notary.x509` without a verified timestamp, the signing time under `notary.x509.signingAuthority`). -/
+
+def isSA (i : Input) : Bool := i.scheme == "signingAuthority"
+
+def chainLenOf (i : Input) : Nat := if i.chainLen == 0 then 2 else i.chainLen
+
+/-- "well away" from the prescribed time: the harness mints at least half an hour -/
+def far : Int := 1800
+
+/-- validity period (notBefore, notAfter) of certificate `k` of the chain as the concretisation mints it -/
+def certWindow (i : Input) (k : Nat) : Int × Int :=
+  if k != i.badCert then (-far, far)
+  else if i.timestampOk then
+    (if i.edge == "notBefore" then (0, far) else if i.edge == "notAfter" then (-far, 0) else (-far, far))
+  else if i.badHow == "noCountersignature" then (-far, far)
+  else if i.badHow == "notYetValid" then (if i.badBy == "second" then 1 else far, far + far)
+  else (-far - far, if i.badBy == "second" then -1 else -far)
+
+def windows (i : Input) : List (Int × Int) := (List.range (chainLenOf i)).map (certWindow i)
+
+/-- a certificate is valid at the prescribed time when that time lies in its period, BOTH END POINTS INCLUDED
+(RFC 5280 4.1.2.5; seeded change C02-21 excludes them) -/
+def validAt (w : Int × Int) : Bool := decide (w.1 ≤ 0) && decide (0 ≤ w.2)
+def expiredAt (w : Int × Int) : Bool := decide (w.2 < 0)
+def notYetValidAt (w : Int × Int) : Bool := decide (0 < w.1)
+
+/-- validity of each chain certificate at the time the scheme prescribes, leaf first, as the
+concretisation mints them: all valid, except certificate `badCert` when it is minted outside -/
+def chainValidity (i : Input) : List Bool := (windows i).map validAt
+
+/-- under `notary.x509`: does the statement demand a verified timestamp for this chain? Only when it lists a
+`tsa` store, and with `afterCertExpiry` only once a certificate of the chain has expired -/
+def timestampDemanded (i : Input) (ws : List (Int × Int)) : Bool :=
+  i.tsaStore && !(i.verifyTimestamp == "afterCertExpiry" && !ws.any expiredAt)
+
+/-- the authentic-timestamp validation of a signature WITHOUT a countersignature, as the property reads it:
+every certificate of the chain valid at the prescribed time; under `notary.x509` a demanded timestamp that
+is not there fails it, and NOT demanding one never excuses a certificate that is not valid now - expired or
+not yet valid (seeded change C02-20 lets the not-yet-valid one pass under `afterCertExpiry`) -/
+def timestampSpec (i : Input) (ws : List (Int × Int)) : Bool :=
+  if isSA i then ws.all validAt else !timestampDemanded i ws && ws.all validAt
+
 /-- the concrete configuration realises the abstract scenario (the generator emits only such) -/
 def concretisationOK (i : Input) : Bool :=
+  -- round 7: only the signing time can be placed on / one second off an end point; a missing countersignature
+  -- is a reason to fail only under a statement that demands one; a passing x509 scenario does not demand one
+  (i.edge == "" || i.edge == "notBefore" || i.edge == "notAfter") &&
+  ((i.edge == "" && i.badBy == "") || isSA i) &&
+  (i.timestampOk || i.badHow != "noCountersignature" || (!isSA i && i.tsaStore && i.verifyTimestamp != "afterCertExpiry")) &&
+  (!i.timestampOk || isSA i || !i.tsaStore || i.verifyTimestamp == "afterCertExpiry") &&
   (i.badCert < (if i.chainLen == 0 then 2 else i.chainLen)) &&
   (i.stores.isEmpty || (trustOf i.stores == i.trust &&
       i.stores.any (fun k => k == .anchor || k == .other || k == .empty || k == .broken))) &&
